@@ -5,6 +5,7 @@ NAME = "gokigen"
 MODULE = "cspuz.puzzle.gokigen"
 FUNC = "solve_gokigen"
 VALUES = [-1, 0, 1, 2, 3, 4]
+TIER1 = ("Gokigen", "solve_gokigen_model")
 
 
 def call(mod, pb):
@@ -39,3 +40,31 @@ def tier2(tier, rng):
     for (h, w) in [(1, 2), (2, 1)]:
         for _ in range(10 if th else 2):
             yield {"h": h, "w": w, "grid": L.random_grid(rng, h + 1, w + 1, VALUES, 0.7)}
+
+
+def tier1_problems(tier, rng):
+    """program-capture tie: every clue layout of the tiniest boards (values -1..5, i.e. at and beyond the largest
+    possible count), samples of all layouts of boards with <= 6 cells in both orientations, random larger and
+    non-square boards up to 7x7 / 1xN / Nx1 with clue values from -3 to 6 (other negatives than -1 also mean
+    "no clue"), boards without cells, and malformed clue grids (missing trailing rows / entries: IndexError)"""
+    th = tier == "thorough"
+    vals = [-1, 0, 1, 2, 3, 4, 5]
+    for g in L.all_grids(2, 2, vals):
+        yield {"h": 1, "w": 1, "grid": g}
+    for (h, w) in [(1, 2), (2, 1), (1, 3), (3, 1), (2, 2), (1, 4), (4, 1), (1, 5), (5, 1), (2, 3), (3, 2), (1, 6), (6, 1)]:
+        for _ in range(120 if th else 25):
+            yield {"h": h, "w": w, "grid": [[rng.choice(vals) for _ in range(w + 1)] for _ in range(h + 1)]}
+    wide = [-3, -2, -1, 0, 1, 2, 3, 4, 5, 6]
+    for (h, w) in [(3, 3), (2, 5), (5, 2), (4, 4), (3, 6), (6, 5), (1, 7), (7, 1), (7, 7), (4, 7), (7, 3), (5, 5)]:
+        for p in [0.2, 0.5, 0.8] * (3 if th else 1):
+            yield {"h": h, "w": w, "grid": L.random_grid(rng, h + 1, w + 1, VALUES, p)}
+        yield {"h": h, "w": w, "grid": [[rng.choice(wide) for _ in range(w + 1)] for _ in range(h + 1)]}
+    for (h, w) in [(0, 0), (0, 1), (1, 0), (0, 3), (3, 0)]:
+        for _ in range(3):
+            yield {"h": h, "w": w, "grid": [[rng.choice(vals) for _ in range(w + 1)] for _ in range(h + 1)]}
+    # malformed: the clue grid lacks its last row(s) or the last entries of its last row
+    for (h, w) in [(1, 1), (2, 3), (3, 2), (0, 2), (4, 4)]:
+        full = [[rng.choice(VALUES) for _ in range(w + 1)] for _ in range(h + 1)]
+        yield {"h": h, "w": w, "grid": full[:-1]}
+        yield {"h": h, "w": w, "grid": full[:-1] + [full[-1][:-1]]}
+        yield {"h": h, "w": w, "grid": []}
